@@ -1022,6 +1022,14 @@ impl<'a> TransactionRangeIterator<'a> {
 			None => return Err(Error::NoSnapshot),
 		};
 
+		// An inverted range is empty. Collapse it to [start, start) so that no
+		// layer below sees start > end (BTreeMap::range and the per-level table
+		// slice in KMergeIterator both panic on it).
+		let end_key = match (&start_key, end_key) {
+			(Some(s), Some(e)) if *s > e => Some(s.clone()),
+			(_, e) => e,
+		};
+
 		// Create a snapshot iterator for the range (an absent bound stays absent)
 		let snapshot_iter = snapshot.range(start_key.as_deref(), end_key.as_deref())?;
 
